@@ -174,9 +174,10 @@ InitMachine(sc) ==
                         \* not sealed when they stored, not sealed when they replied
      claimed  |-> -1,   \* proofs counted by the last claim pass that sent a claim
      dropped  |-> {},   \* ghost: proofs discarded by a claim pass that found the evidence below the minimum
-     \* ghosts describing the two known race shapes (known_findings.json F-C34-a / F-C34-b)
+     \* ghosts describing the known race shapes (known_findings.json F-C34-a / -b / -c)
      raceDup  |-> {},   \* proofs of identical relays that were BOTH validated before either stored
      erased   |-> {},   \* relays whose stored proof was overwritten by a relay that had loaded before they stored
+                        \* (by its SetEvidence, or in place through the shared backing array even when that is refused)
      revived  |-> FALSE,\* a relay stored its non-empty stale copy after a claim pass had deleted the evidence (and seal mark) it was loaded from
      dels     |-> 0,    \* number of deletions so far
      loadDel  |-> [r \in Relays(sc) |-> 0],
@@ -197,13 +198,18 @@ StepL(M, sc, r) ==
     IN [M EXCEPT !.S = g.S, !.loc[r] = g.e, !.pc[r] = "loaded", !.loadVer[r] = M.ver, !.loadDel[r] = M.dels]
 
 StepS(M, sc, r) ==
-    LET a == AddProof(M.S, M.loc[r], sc.proofs[r])
-        w == SetEvidence(a.S, a.e)
+    LET e  == M.loc[r]
+        a  == AddProof(M.S, e, sc.proofs[r])
+        w  == SetEvidence(a.S, a.e)
+        \* the append wrote in place into a slot the stored value can see (shared backing array)
+        overwrote == M.S.cache.found /\ e.arr # 0 /\ e.arr = M.S.cache.e.arr /\ e.len < M.S.cache.e.len
+        \* relays that stored after r had loaded: r's stale copy replaces their proof
+        gone == IF w.stored \/ overwrote THEN {q \in Relays(sc) \ {r} : M.storeVer[q] > M.loadVer[r]} ELSE {}
     IN IF w.stored
          THEN [M EXCEPT !.S = w.S, !.loc[r] = a.e, !.pc[r] = "stored", !.ver = @ + 1, !.storeVer[r] = M.ver + 1,
-                        !.erased = @ \cup {q \in Relays(sc) \ {r} : M.storeVer[q] > M.loadVer[r]},
-                        !.revived = @ \/ (M.loc[r].num > 0 /\ M.dels > M.loadDel[r])]
-         ELSE [M EXCEPT !.S = w.S, !.loc[r] = a.e, !.pc[r] = "stored", !.refused = @ \cup {r}]
+                        !.erased = @ \cup gone,
+                        !.revived = @ \/ (e.num > 0 /\ M.dels > M.loadDel[r])]
+         ELSE [M EXCEPT !.S = w.S, !.loc[r] = a.e, !.pc[r] = "stored", !.refused = @ \cup {r}, !.erased = @ \cup gone]
 
 StepR(M, sc, r) ==
     [M EXCEPT !.pc[r] = "done", !.res[r] = "ok", !.ans = IF M.S.sealed \/ r \in M.refused THEN @ ELSE @ \cup {r}]
